@@ -394,7 +394,7 @@ func init() {
 						o.Obs("already_encoded_checked", 1)
 					}
 				}
-				drop := map[string]bool{"date": true, "content-length": true, "content-encoding": true}
+				drop := map[string]bool{"date": true, "content-length": true, "content-encoding": true, "vary": true} // a compressing hop may (should) add Vary: Accept-Encoding
 				if d := diffMulti(lowerMulti(pr.Headers, drop), lowerMulti(gr.Headers, drop)); d != "" {
 					viol("headers-changed|"+sigOf(d), "other response headers: "+d)
 				}
